@@ -51,15 +51,22 @@ static void run_rand(uint64_t idx, pv_rng* rng) {
     if (idx % 8 == 3) { static const uint64_t ODD[] = { 0, PV_EPOCH - 1, PV_EPOCH, PV_EPOCH + (1ull << 32) - 1, PV_EPOCH + (1ull << 32), PV_EPOCH + (1ull << 32) + 3 * PV_STEP, PV_EPOCH + (1ull << 33) + 7, 1ull << 32, 1ull << 40, 1ull << 63, UINT64_MAX - 1, UINT64_MAX, PV_EPOCH + 1023 * PV_STEP, PV_EPOCH + 1024 * PV_STEP, PV_EPOCH + 5000 * PV_STEP + 9 };
         t = pv_randn(rng, 3) ? ODD[pv_randn(rng, sizeof ODD / sizeof *ODD)] : (pv_rand64(rng) >> pv_randn(rng, 30)); PV_COUNT("rand.creates_with_out_of_range_clock", 1); }
     pv_w->time_value = t;
+    /* a clock moves: should the library read it more than once during one creation, the readings differ (half of the cases);
+     * the birthday must then be the birthday of one of the readings it was given */
+    pv_w->time_script_n = 0;
+    if (idx % 2 == 1) { pv_w->time_script[0] = t; pv_w->time_script[1] = pv_randn(rng, 2) ? t + pv_randn(rng, (uint32_t)(3 * PV_STEP)) : (pv_randn(rng, 2) ? PV_EPOCH - 1 - pv_randn(rng, 1000) : PV_EPOCH + pv_rand64(rng) % (1024 * PV_STEP));
+        pv_w->time_script[2] = pv_randn(rng, 2) ? PV_EPOCH - 5 : PV_EPOCH + pv_rand64(rng) % (1024 * PV_STEP); pv_w->time_script_n = 3; }
     unsigned feat = pv_randn(rng, 8);
     wraps_begin();
     polyseed_data* s = NULL; int st = pv_api_create(feat, &s);
-    pv_set_rand_prng();
+    pv_set_rand_prng(); pv_w->time_script_n = 0;
+    int nreads = pv_w->time_reads; uint64_t seen[8]; memcpy(seen, pv_w->time_seen, sizeof seen);
     PV_COUNT("evaluations", 1);
     if (st != POLYSEED_OK) { pv_violation("C18/create-failed", "%s", pv_status_name(st)); for (int i = 0; i < 3; ++i) if (keep[i]) pv_api_free(keep[i]); return; }
     bool ok = true;
     if (pv_w->rand_total != 19) { ok = false; pv_violation("C18/random-bytes-requested", "create requested %zu random bytes in %d call(s), expected 19", pv_w->rand_total, pv_ev_count(PV_EV_RAND)); }
-    if (pv_ev_count(PV_EV_TIME) != 1) { ok = false; pv_violation("C18/clock-reads", "create read the injected clock %d times", pv_ev_count(PV_EV_TIME)); }
+    if (nreads < 1) { ok = false; pv_violation("C18/clock-reads", "create did not read the injected clock"); }
+    if (nreads > 1) PV_COUNT("rand.creates_reading_the_clock_more_than_once", 1);
     for (unsigned i = 0; i < sizeof ENTROPY_WRAPS / sizeof *ENTROPY_WRAPS; ++i) if (wraps_delta(ENTROPY_WRAPS[i])) { ok = false; char key[96]; snprintf(key, sizeof key, "C18/other-source-consulted/%s", pv_wrap_name(ENTROPY_WRAPS[i])); pv_violation(key, "create called libc %s()", pv_wrap_name(ENTROPY_WRAPS[i])); }
     if (wraps_delta(PV_WRAP_TIME)) { ok = false; pv_violation("C18/other-source-consulted/time", "create called libc time() although a clock is injected"); }
     /* the secret is exactly the delivered bytes, bit for bit */
@@ -71,7 +78,8 @@ static void run_rand(uint64_t idx, pv_rng* rng) {
     if (ok && memcmp(g_img + 10, want, 19)) { ok = false; pv_violation("C18/secret-differs-from-random-output", "random source delivered %s, seed holds %s", pv_hex(delivered, 19), pv_hex(g_img + 10, 19)); }
     if (ok && memcmp(delivered, script, 19)) pv_fatal("C18: world did not deliver the script");
     uint64_t B = pv_api_get_birthday(s);
-    if (B != pv_m_birthday_time(pv_m_birthday_of(t))) { ok = false; pv_violation("C18/birthday-not-from-injected-clock", "clock %llu, birthday %llu", (unsigned long long)t, (unsigned long long)B); }
+    { bool from_clock = false; for (int i = 0; i < nreads && i < 8; ++i) if (B == pv_m_birthday_time(pv_m_birthday_of(seen[i]))) from_clock = true;
+      if (nreads >= 1 && !from_clock) { ok = false; pv_violation("C18/birthday-not-from-injected-clock", "the clock was read %d time(s) and said %llu%s; birthday %llu belongs to none of the readings", nreads, (unsigned long long)seen[0], nreads > 1 ? ", then other values" : "", (unsigned long long)B); } }
     if (ok) { PV_DISTINCT("nontrivial", pv_mix(pv_hash(script, 19, 18), t)); PV_COUNT("rand.creates_ok", 1); if (idx < 152) PV_COUNT("rand.single_bit_patterns_ok", 1); }
     if (idx == 7 || idx == 200) pv_sample("rand", "random source delivers %s, clock %llu -> secret %s", pv_hex(script, 19), (unsigned long long)t, pv_hex(g_img + 10, 19));
     if (rep + 1 < reps && pv_randn(rng, 2)) keep[rep] = s; else pv_api_free(s);       /* the earlier seed stays alive or not */
